@@ -4,6 +4,7 @@ import ast
 
 from ..cfg import cfg_of
 from ..core import (
+    cond_facts,
     ancestors, assigns_to, body_walk, call_attr, call_name, calls_in, const_value, dotted, enclosing_stmt, is_const, kwarg,
     nodes_of_type, parent, stores_to, unparse, walk_local, names_in, param_names,
 )
@@ -48,7 +49,13 @@ def intercept(ctx):
     cmp_ = [c for c in ast.walk(test) if isinstance(c, ast.Compare) and isinstance(c.ops[0], ast.In) and unparse(c.left) == "type(obj)"]
     tys = sorted(unparse(e) for e in cmp_[0].comparators[0].elts)
     ctx.check(tys == ["self.np.matrix", "self.np.memmap", "self.np.ndarray"], t[0], "intercepts exactly type(obj) in (ndarray, matrix, memmap)", "intercepted types are %s" % tys)
-    ctx.check("self.np is not None" in unparse(test), t[0], "only when numpy is importable")
+    facts = cond_facts([(t[0], test, True)])
+    ctx.check(("self.np is not None", True) in facts and any(f[0].startswith("type(obj) in ") and f[1] for f in facts) and len(facts) == 2, t[0], "only when numpy is importable; the wrapper branch is the TRUE branch of that test",
+              "the array branch of NumpyPickler.save is entered under %s" % facts)
+    dflt = [c for c in calls_in(f) if call_name(c) == "Pickler.save" and len(c.args) == 2 and dotted(c.args[1]) == f.args.args[1].arg]
+    ctx.check(bool(dflt) and all(isinstance(parent(c), ast.Return) or isinstance(parent(c), ast.Expr) for c in dflt) and g.every_path_from([g.entry], set(g.nodes_of_all(dflt)) | set(g.nodes_of_all([x for x in calls_in(f) if call_attr(x) == "write_array"])), None, skip_exc=True),
+              dflt[0] if dflt else f, "every other object goes to the default pickler: each path ends in Pickler.save(self, obj) or in the array branch",
+              "NumpyPickler.save has a path that pickles nothing (neither the array branch nor Pickler.save(self, obj))")
     body = ast.Module(body=t[0].body, type_ignores=[])
     wrap = [a for a in walk_local(body) if isinstance(a, ast.Assign) and isinstance(a.value, ast.Call) and call_name(a.value) == "self._create_array_wrapper"]
     sv = [c for c in calls_in(body) if call_name(c) == "Pickler.save" and len(c.args) == 2 and wrap and dotted(c.args[1]) == wrap[0].targets[0].id]
@@ -78,9 +85,22 @@ def intercept(ctx):
     test_ = [n for n in nodes_of_type(u, ast.If) if "isinstance(self.stack[-1]" in unparse(n.test)]
     ctx.check(bool(base) and bool(test_) and gu.every_path_to(gu.nodes_of(test_[0]), gu.nodes_of_all(base)), base[0] if base else u, "load_build first lets pickle build the object, then inspects the top of the stack")
     if test_:
-        ctx.check("NumpyArrayWrapper" in unparse(test_[0].test), test_[0], "a NumpyArrayWrapper on top of the stack is recognised")
+        ctx.check(unparse(test_[0].test, 200) in ("isinstance(self.stack[-1], (NDArrayWrapper, NumpyArrayWrapper))", "isinstance(self.stack[-1], (NumpyArrayWrapper, NDArrayWrapper))", "isinstance(self.stack[-1], NumpyArrayWrapper)"), test_[0],
+                  "a NumpyArrayWrapper (or legacy NDArrayWrapper) on top of the stack is recognised", "load_build replaces the top of the stack under `%s`" % unparse(test_[0].test, 200))
         rd = [c for c in calls_in(test_[0]) if call_name(c) == "array_wrapper.read" and len(c.args) == 2]
         ctx.check(bool(rd) and dotted(rd[0].args[0]) == "self" and dotted(rd[0].args[1]) == "self.ensure_native_byte_order", rd[0] if rd else test_[0], "and replaced by wrapper.read(self, ensure_native_byte_order)")
+        if rd:
+            fc = cond_facts([c_ for c_ in gu.conditions_at(gu.nodes_of(rd[0])) if c_[0] is not test_[0] and "self.np" not in unparse(c_[1])])
+            ctx.check(all(f == ("isinstance(array_wrapper, NDArrayWrapper)", False) for f in fc), rd[0], "the current-format reader is used for every wrapper that is not a legacy NDArrayWrapper",
+                      "wrapper.read(self, ensure_native_byte_order) is reached under %s" % fc)
+        leg = [c for c in calls_in(test_[0]) if call_name(c) == "array_wrapper.read" and len(c.args) == 1]
+        for c in leg:
+            fc = cond_facts([c_ for c_ in gu.conditions_at(gu.nodes_of(c)) if c_[0] is not test_[0] and "self.np" not in unparse(c_[1])])
+            ctx.check(fc == [("isinstance(array_wrapper, NDArrayWrapper)", True)], c, "the legacy reader only for NDArrayWrapper", "the legacy reader is reached under %s" % fc)
+        npn = [n for n in nodes_of_type(test_[0], ast.If) if "self.np" in unparse(n.test)]
+        for n in npn:
+            ctx.check(unparse(n.test) == "self.np is None" and any(isinstance(x, ast.Raise) for x in n.body), n, "without numpy an ImportError is raised (never a silent wrapper object in the result)",
+                      "the numpy-missing guard of load_build is `%s`" % unparse(n.test))
         pop = [c for c in calls_in(test_[0]) if call_name(c) == "self.stack.pop"]
         app = [c for c in calls_in(test_[0]) if call_name(c) == "self.stack.append"]
         ctx.check(bool(pop) and bool(app) and dotted(app[0].args[0]) == "_array_payload", app[0] if app else test_[0], "the array takes the wrapper's place on the stack")
@@ -191,6 +211,20 @@ def io_dual(ctx):
     ctx.check(not _guarded_by_alignment(gw, it[0], w) and any(unparse(t) == "array.dtype.hasobject" and not pol for (_, t, pol) in gw.conditions_at(gw.nodes_of(it[0]))), it[0], "payload is written for every non-object array, aligned or not")
     cnt = _def(r, "count")
     ctx.check(len(cnt) == 2 and any(is_const(a.value, 1) for a in cnt) and any("multiply.reduce" in unparse(a.value) for a in cnt), cnt[0] if cnt else r, "reader element count = product of the shape (1 for 0-d)")
+    for a in cnt:
+        fc = cond_facts(gr.conditions_at(gr.nodes_of(a)))
+        if is_const(a.value, 1):
+            ctx.check(fc == [("len(self.shape) == 0", True)], a, "count = 1 exactly for 0-d arrays", "count = 1 is chosen under %s" % fc)
+        else:
+            ctx.check(fc == [("len(self.shape) == 0", False)], a, "the product of the shape otherwise", "the shape product is chosen under %s" % fc)
+            src = [x for x in ast.walk(a.value) if isinstance(x, ast.Name) and x.id not in ("unpickler",)]
+            d = _def(r, src[0].id) if src else []
+            ctx.check(bool(d) and "self.shape" in unparse(d[0].value), d[0] if d else a, "over the stored shape (as int64)")
+    emp = [a for a in nodes_of_type(r, ast.Assign) if isinstance(a.value, ast.Call) and call_name(a.value) == "unpickler.np.empty"]
+    ctx.check(len(emp) == 1 and dotted(emp[0].value.args[0]) == "count" and dotted(kwarg(emp[0].value, "dtype", 1)) == "self.dtype", emp[0] if emp else r, "the result buffer has `count` elements of the stored dtype")
+    for fn_, nm in ((r, "array"), (m, "marray")):
+        rets_ = [x for x in nodes_of_type(fn_, ast.Return)]
+        ctx.check(bool(rets_) and all(dotted(x.value) == nm for x in rets_), rets_[0] if rets_ else fn_, "%s returns the array it built" % fn_.name, "%s does not return the array it built" % fn_.name)
     fl = [l for l in nodes_of_type(r, ast.For) if isinstance(l.iter, ast.Call) and call_name(l.iter) == "range"]
     ctx.need(fl, "reader chunk loop not found")
     ctx.check(unparse(fl[0].iter) == "range(0, count, max_read_count)", fl[0], "reader covers [0, count) in steps of max_read_count")
@@ -321,9 +355,24 @@ def byteorder(ctx):
 def mmap_gate(ctx):
     rd = F(ctx, W + ".read")
     g = cfg_of(rd)
+    sub = [n for n in nodes_of_type(rd, ast.If) if "self.subclass" in unparse(n.test, 300)]
+    ctx.check(len(sub) == 1, sub[0] if sub else rd, "read() has one subclass test")
+    if sub:
+        fc = cond_facts([(sub[0], sub[0].test, True)])
+        ctx.check(len(fc) == 2 and ("hasattr(array, '__array_prepare__')", True) in fc and any(((f[0].startswith("self.subclass in ") and not f[1]) or (f[0].startswith("self.subclass not in ") and f[1])) and "ndarray" in f[0] and "memmap" in f[0] for f in fc), sub[0],
+                  "another subclass is rebuilt only when the stored class is neither ndarray nor memmap", "the subclass is rebuilt under %s" % fc)
+        rb = [x for x in nodes_of_type(rd, ast.Return)]
+        plain = [x for x in rb if dotted(x.value) == "array"]
+        ctx.check(bool(plain) and all(any(i is sub[0] and not pol for (i, _, pol) in g.conditions_at(g.nodes_of(x))) for x in plain), plain[0] if plain else rd, "plain arrays and memmaps are returned as read")
+        prep = [x for x in rb if isinstance(x.value, ast.Call) and call_attr(x.value) == "__array_prepare__"]
+        ctx.check(bool(prep) and all(dotted(x.value.args[0]) == "array" for x in prep), prep[0] if prep else sub[0], "a subclass instance is prepared from the array that was read")
+        rc = [c for c in calls_in(rd) if (call_name(c) or "").endswith("_reconstruct")]
+        ctx.check(bool(rc) and dotted(rc[0].args[0]) == "self.subclass", rc[0] if rc else sub[0], "of the stored subclass")
     mm = [c for c in calls_in(rd) if call_name(c) == "self.read_mmap"]
     ra = [c for c in calls_in(rd) if call_name(c) == "self.read_array"]
-    ctx.need(mm and ra, "read no longer chooses between read_mmap and read_array")
+    if not (mm and ra):
+        ctx.bad(rd, "read() no longer obtains the array from both read_mmap (memory-mapped) and read_array (copied)", key=NP + "::NumpyArrayWrapper.read::mmap or copy")
+        return
     cm = [(unparse(t), pol) for (_, t, pol) in g.conditions_at(g.nodes_of(mm[0]))]
     ctx.check(cm == [("unpickler.mmap_mode is not None and self.allow_mmap", True)], mm[0], "memory-map iff a mode was validated and the wrapper allows it", "read_mmap is chosen under %s" % cm)
     ctx.check([(unparse(t), pol) for (_, t, pol) in g.conditions_at(g.nodes_of(ra[0]))] == [("unpickler.mmap_mode is not None and self.allow_mmap", False)], ra[0], "otherwise read the bytes")
